@@ -256,6 +256,12 @@ type kout struct {
 	Mutated    string
 	Swapped    string
 	NotParked  int // pending writers that published without stopping at the yield point
+	// the same reads repeated after the writes (List and Get(PullID) were also made before them, with the same
+	// options): with the options / with the options minus the read-mask ones
+	ListEnd, ListEndRaw []proto.Message
+	GetStart, GetEnd    proto.Message // col.Get(PullID, options...) before the subscriptions open / after the writes
+	GetEndRaw           proto.Message // col.Get(PullID) after the writes
+	VGetEnd, VGetEndRaw proto.Message // val.Get(options...) / val.Get() after the writes
 }
 
 func texts[T interface{ text() string }](xs []T) string {
@@ -465,6 +471,9 @@ func (c kcase) run() kout {
 		opts := c.buildOpts(append(append([]string{}, c.Options...), "B1"))
 		optsNoMask := c.buildOpts(append(c.withoutMask(), "B1"))
 		out.List = cloneAll(col.List(c.buildOpts(c.Options)...))
+		if m, ok := col.Get(c.PullID, c.buildOpts(c.Options)...); ok {
+			out.GetStart = clone(m)
+		}
 
 		ctx, cancel := context.WithCancel(context.Background())
 		defer cancel()
@@ -529,6 +538,15 @@ func (c kcase) run() kout {
 				panic("write " + w.Op)
 			}
 		}
+		// the reads made before the writes, again (same options, same ids)
+		out.ListEnd = cloneAll(col.List(c.buildOpts(c.Options)...))
+		out.ListEndRaw = cloneAll(col.List(c.buildOpts(c.withoutMask())...))
+		if m, ok := col.Get(c.PullID, c.buildOpts(c.Options)...); ok {
+			out.GetEnd = clone(m)
+		}
+		if m, ok := col.Get(c.PullID); ok {
+			out.GetEndRaw = clone(m)
+		}
 		// with backpressure a write returns once every subscription's goroutine has TAKEN the event; three
 		// more writes push everything before them through the (at most three) stages to the collectors.  The
 		// pushing items must pass every include callback that can pass anything (a callback that rejects them
@@ -547,6 +565,7 @@ func (c kcase) run() kout {
 			vopts = append(vopts, resource.WithNoDuplicates())
 		}
 		val := resource.NewValue(vopts...)
+		_ = val.Get(c.buildOpts(c.Options)...)
 		tick := int64(0)
 		vgates := map[int]*pgate{}
 		vtick := map[int]int64{}
@@ -600,6 +619,7 @@ func (c kcase) run() kout {
 				return err
 			})
 		}
+		out.VGetEnd, out.VGetEndRaw = clone(val.Get(c.buildOpts(c.Options)...)), clone(val.Get())
 		vEnd := tick
 		vclock.set(tick + 1)
 		step("Set", func() error { _, err := val.Set(sentinelMsg(c.Root)); return err })
@@ -733,6 +753,7 @@ func (c kcase) schedLines() []string {
 		for k, j := range parked {
 			if j == i {
 				steps = append(steps, "p", fmt.Sprint(k))
+				n++
 				parked = append(parked[:k:k], parked[k+1:]...)
 				break
 			}
@@ -747,9 +768,10 @@ func (c kcase) schedLines() []string {
 		eq = "E"
 	}
 	tail := strings.Join(steps, " ")
-	mk := func(o, mode string) string {
-		return strings.TrimSpace(fmt.Sprintf("csched %d %s %s %s %d %s", ty, o, mode, eq, npre, tail))
+	mkAt := func(o, mode string, at int) string {
+		return strings.TrimSpace(fmt.Sprintf("csched %d %s %s %s %d %s", ty, o, mode, eq, at, tail))
 	}
+	mk := func(o, mode string) string { return mkAt(o, mode, npre) }
 	o := "B1"
 	if len(c.Options) > 0 {
 		o = c.enc() + ",B1"
@@ -788,7 +810,7 @@ func (c kcase) schedLines() []string {
 		}
 	}
 	vl := strings.TrimSpace(fmt.Sprintf("vsched %d %s %s %s %d %s", ty, o, eq, init, vpre, strings.Join(vsteps, " ")))
-	return []string{mk(c.enc(), "list"), mk(o, "pull"), mk(o, "pullid="+c.PullID), mk("B1", "pull"), vl}
+	return []string{mk(c.enc(), "list"), mk(o, "pull"), mk(o, "pullid="+c.PullID), mk("B1", "pull"), vl, mkAt(c.enc(), "list", n)}
 }
 
 func (c kcase) schedText(out kout) string {
@@ -803,7 +825,15 @@ func (c kcase) schedText(out kout) string {
 		}
 		l = strings.Join(xs, " ")
 	}
-	return "list: " + l + " ; pull: " + texts(out.S1) + " ; pullid: " + texts(out.P1) + " ; plain: " + texts(out.S0) + " ; value: " + texts(out.V1)
+	le := "-"
+	if len(out.ListEnd) > 0 {
+		var xs []string
+		for _, m := range out.ListEnd {
+			xs = append(xs, msgText(m))
+		}
+		le = strings.Join(xs, " ")
+	}
+	return "list: " + l + " ; pull: " + texts(out.S1) + " ; pullid: " + texts(out.P1) + " ; plain: " + texts(out.S0) + " ; value: " + texts(out.V1) + " ; list afterwards: " + le
 }
 
 func (c kcase) codeText(out kout) string {
@@ -860,6 +890,28 @@ func (c kcase) monitor(mon *lib.Monitor, out kout) {
 				mon.Violate(site+"/List/projection", "item "+k.ID+" returned by List is not the projection of the stored item onto the effective mask "+mask.Enc(), c, want, got)
 			}
 		}
+	}
+	// the same reads after the writes: what is stored NOW, projected (the unmasked reads are the reference)
+	if len(out.ListEnd) != len(out.ListEndRaw) {
+		mon.Violate(site+"/List-after-writes/items-differ", "List with the options, repeated after the writes, does not return the items the same List without its read-mask options returns", c, fmt.Sprint(len(out.ListEndRaw), " items"), fmt.Sprint(len(out.ListEnd), " items"))
+	} else {
+		for i, raw := range out.ListEndRaw {
+			if want, got := mt.CanonMsg(specProject(raw, mask)), msgText(out.ListEnd[i]); want != got {
+				mon.Violate(site+"/List-after-writes/projection", "List with the options, repeated after the writes, returns an item that is not the projection onto "+mask.Enc()+" of what is stored now", c, want, got)
+			}
+		}
+	}
+	pOpt := func(m proto.Message) string {
+		if m == nil {
+			return "nil"
+		}
+		return mt.CanonMsg(specProject(m, mask))
+	}
+	if want, got := pOpt(out.GetEndRaw), msgText(out.GetEnd); want != got {
+		mon.Violate(site+"/Get-after-writes/projection", "Get("+c.PullID+") with the options, repeated after the writes, is not the projection onto "+mask.Enc()+" of what is stored now", c, want, got)
+	}
+	if want, got := pOpt(out.VGetEndRaw), msgText(out.VGetEnd); want != got {
+		mon.Violate(site+"/Value.Get-after-writes/projection", "Value.Get with the options, repeated after the writes, is not the projection onto "+mask.Enc()+" of the value held now", c, want, got)
 	}
 	// Pull: seeds
 	var seeds1 []kchange
@@ -1168,8 +1220,8 @@ func runCollCases(cases []kcase, tie, stie *lib.Tie, mon *lib.Monitor, drv *lib.
 		model := "no panic"
 		if out.Panic == "" {
 			model = "list: " + ans[k] + " ; pull: " + ans[k+1] + " ; pullid: " + ans[k+2] + " ; value: " + ans[k+3]
-			smodel := "list: " + ans[k+4] + " ; pull: " + ans[k+5] + " ; pullid: " + ans[k+6] + " ; plain: " + ans[k+7] + " ; value: " + ans[k+8]
-			k += 9
+			smodel := "list: " + ans[k+4] + " ; pull: " + ans[k+5] + " ; pullid: " + ans[k+6] + " ; plain: " + ans[k+7] + " ; value: " + ans[k+8] + " ; list afterwards: " + ans[k+9]
+			k += 10
 			if out.NotParked == 0 {
 				stie.Record(c.key(), len(c.Pending) > 0, c, smodel, c.schedText(out))
 				stie.Count(fmt.Sprintf("parked-writers:%d", len(c.releaseOrder())))
